@@ -528,7 +528,8 @@ func genEncX(g *valgen.Gen, proto byte, kind string, allowNull, noTuple bool) *e
 		} else {
 			_, t, gt, v = g.CaseTyped(depth)
 		}
-		if kind == "coll" && !isColl(t) || kind == "comp" && t.IsScalar() || noTuple && t.Name == "tuple" {
+		if kind == "coll" && !isColl(t) || kind == "comp" && t.IsScalar() || noTuple && t.Name == "tuple" ||
+			(kind == "tuple" || kind == "udt") && t.Name != kind {
 			continue
 		}
 		valgen.Normalize(p, t, v)
@@ -620,7 +621,7 @@ func genHeld(g *valgen.Gen) (string, string) {
 		return "s"
 	}
 	// the main call of the scenario: mostly a collection (assembled in a buffer), also any composite / anything
-	kind := []string{"coll", "coll", "coll", "comp", ""}[r.Intn(5)]
+	kind := []string{"coll", "coll", "coll", "tuple", "udt", "comp", ""}[r.Intn(7)]
 	main := genEnc(g, 0, kind, false)
 	encText := func() string {
 		switch r.Intn(8) {
